@@ -1,6 +1,7 @@
 """Contracts for votekit/models.py and the assumed constructor contract of PreferenceProfile"""
 from pyvc.api import *
 from specs.base import *
+from specs.transfers import *
 
 
 @contract("pref_profile.py", "PreferenceProfile.__init__", props=(), assumed=True)
@@ -196,3 +197,16 @@ class get_profile:
 
     def invariant_0(self, profile, _k):
         return profile == replay(self._profile, self.election_states, _k)
+
+
+@contract("pref_profile.py", "PreferenceProfile.condense_ballots", props=(), assumed=True)
+class condense_assumed:
+    """ASSUMED (until its body is under contract): condensing keeps, for every ranking, the total weight of the ballots
+    carrying it (C11 checks the real function in the bounded tier); scores are not used by the callers that rely on this."""
+    params = dict(self=Profile)
+    returns = Profile
+    forall = dict(k=Seq(CSet))
+    trusted = ("assumed contract: PreferenceProfile.condense_ballots preserves the total weight per ranking",)
+
+    def ensures(self, result, k):
+        return wrank(result.ballots, len(result.ballots), k) == wrank(self.ballots, len(self.ballots), k)
